@@ -27,17 +27,22 @@ deriving DecidableEq, Repr
 /-- entry types that have no payload of their own -/
 def noPayload (t : Bytes) : Bool := t == T.ghost || t == T.debChangelog
 
+/-- the twelve permission bits a mode stands for: a mode given in the configuration has set-user-ID, set-group-ID and
+    sticky at 04000, 02000 and 01000; a mode read from the build host's file system (io/fs.FileMode) has them at bits 23,
+    22 and 20 – either way the entry denotes a file with that bit set -/
+def unixPerm (fm : Nat) : Nat := debMode fm
+
 /-- what one planned entry denotes in format `f` -/
 def denote1 (f : Fmt) (c : Content) : Option LEntry :=
   let fi := cinfo c
   if noPayload c.type then none
   else if f = .rpm && c.type == T.implicitDir then none
   else if isDirType c.type then
-    some { path := pathOf c.dst, kind := .dir, perm := fi.mode &&& 0o7777, owner := fi.owner, group := fi.group }
+    some { path := pathOf c.dst, kind := .dir, perm := unixPerm fi.mode, owner := fi.owner, group := fi.group }
   else if c.type == T.symlink then
     some { path := pathOf c.dst, kind := .symlink, link := c.src }
   else
-    some { path := pathOf c.dst, kind := .file, perm := fi.mode &&& 0o7777, owner := fi.owner, group := fi.group,
+    some { path := pathOf c.dst, kind := .file, perm := unixPerm fi.mode, owner := fi.owner, group := fi.group,
            mtime := if f = .rpm then (u32 fi.mtime : Int) else fi.mtime, size := fi.size, src := c.src }
 
 /-- the logical tree a plan denotes for a format, in plan order -/
